@@ -87,8 +87,12 @@ where
 {
     let chans = F::CHANNELS;
     // float formats have no full scale: rarely drive them far beyond 1.0 (linearity must not depend on magnitude)
-    let amp_class = src.cfg("amp_class", 0, 3, |r| if r.chance(1, 8) { r.range(1, 3) } else { 0 });
-    let amp = if F::IS_FLOAT { [1.0, 1.0e3, 1.0e6, 1.0e-6][amp_class as usize] } else { 0.12 };
+    // (class 4: amplitudes in the float type's subnormal range, where products round on an absolute grid)
+    let amp_class = src.cfg("amp_class", 0, 4, |r| if r.chance(1, 7) { r.range(1, 4) } else { 0 });
+    let subnormal = if fmt_eps::<F>() > 1e-10 { 7.3e-40 } else { 1.0e-310 };
+    let amp = if F::IS_FLOAT { [1.0, 1.0e3, 1.0e6, 1.0e-6, subnormal][amp_class as usize] } else { 0.12 };
+    // absolute spacing of the float type's subnormals (each tap product is rounded to it once)
+    let spacing = if !F::IS_FLOAT { 0.0 } else if fmt_eps::<F>() > 1e-10 { 1.5e-45 } else { 5e-324 };
     let steps = src.cfg("steps", 1, 3000, |r| if r.chance(1, 40) { r.range(600, 3000) } else { r.range(1, 300) }) as usize;
     let alpha = [0.5, -0.25, 2.0, 1.0, -1.0, 0.125][src.cfg("alpha", 0, 5, |r| r.range(0, 5)) as usize];
     let beta = [0.5, 0.75, -3.0, 1.0, 0.0, -0.5][src.cfg("beta", 0, 5, |r| r.range(0, 5)) as usize];
@@ -191,7 +195,7 @@ where
                     let back = 2 * depth - 1 - idx;
                     for ch in 0..chans {
                         let want = if fed > back { hist[fed - 1 - back][ch] } else { 0.0 };
-                        let tol = peak_a.max(1e-300) * (1e-12 + 2.0 * fmt_eps::<F>()) + F::lsb_f64() * 0.0;
+                        let tol = peak_a.max(1e-300) * (1e-12 + 2.0 * fmt_eps::<F>()) + 2.0 * depth as f64 * spacing;
                         check!(
                             obs,
                             (ga[ch] - want).abs() <= tol,
@@ -214,7 +218,7 @@ where
                     let gb = ob.to_f64s();
                     let gc = oc.to_f64s();
                     let scale = alpha.abs() * peak_a + beta.abs() * peak_b;
-                    let tol = (1e-12 + 16.0 * fmt_eps::<F>()) * depth as f64 * scale + 1e-300;
+                    let tol = (1e-12 + 16.0 * fmt_eps::<F>()) * depth as f64 * scale + 1e-300 + 4.0 * depth as f64 * spacing * (alpha.abs() + beta.abs() + 1.0);
                     for ch in 0..chans {
                         let lin = alpha * ga[ch] + beta * gb[ch];
                         check!(
@@ -273,7 +277,7 @@ where
                 twin = Some(mk::<F>(depth, 0));
                 // silent initial state
                 let o = sa.interpolate(0.5);
-                check!(obs, o == F::EQUILIBRIUM, "sinc.reset-silent", "interpolate(0.5) right after reset() is {:?}", o);
+                check!(obs, o == F::eq_ref(), "sinc.reset-silent", "interpolate(0.5) right after reset() is {:?}", o);
             }
             _ => {
                 src.skip_last();
@@ -456,7 +460,7 @@ impl Scenario for SincScenario {
         }
     }
     fn run(&self, src: &mut Source, obs: &mut Observer) -> Result<(), Violation> {
-        let fmt = src.cfg("frame", 0, 8, |r| r.range(0, 8));
+        let fmt = src.cfg("frame", 0, 9, |r| r.range(0, 9));
         obs.note(fmt as u64);
         match fmt {
             0 => drive::<f64>(src, obs),
@@ -467,7 +471,8 @@ impl Scenario for SincScenario {
             5 => drive::<[dasp_sample::types::U24; 2]>(src, obs),
             6 => drive::<u32>(src, obs),
             7 => drive::<dasp_sample::types::I48>(src, obs),
-            _ => drive::<[u8; 3]>(src, obs),
+            8 => drive::<[u8; 3]>(src, obs),
+            _ => drive::<u16>(src, obs),
         }
     }
 }
